@@ -128,13 +128,23 @@ fn run(sc: &Scenario, rng: &mut rand::rngs::StdRng) -> (Vec<Value>, Stop, bool) 
         }));
     }
     let drop_mode = sc.drop_mode;
+    let unwind = drop_mode && rng.random_range(0..2) == 0;
     let drops2 = drops.clone();
     let kept: Arc<std::sync::Mutex<Option<Probe>>> = Arc::new(std::sync::Mutex::new(None));
     let kept2 = kept.clone();
     hs.push(s.spawn(9, move || {
         if drop_mode {
             metrics::verif::point("handle.drop.pre", &[]);
-            drop(handle);
+            if unwind {
+                // the handle goes out of scope while its thread is unwinding from a panic (a worker that panics while it
+                // owns the handle): dropping it must mean exactly the same
+                let _ = std::panic::catch_unwind(std::panic::AssertUnwindSafe(move || {
+                    let _h = handle;
+                    std::panic::resume_unwind(Box::new("unwinding while owning the recovery handle"));
+                }));
+            } else {
+                drop(handle);
+            }
             metrics::verif::point("handle.dropped.post", &[]);
         } else {
             let r = handle.into_inner();
